@@ -99,7 +99,7 @@ m = {
  "hooks": {
    "guard": "verif",
    "enable": "go build -tags verif (all harness workers are built with the tag; no in-tree hook exists so far)",
-   "baseline_off_cmd": "cd /repo && GOFLAGS=-mod=mod GOPROXY=off GOSUMDB=off go test -vet=off -count=1 -timeout 25m ./...",
+   "baseline_off_cmd": "cd /repo && GOFLAGS=-mod=mod GOPROXY=off GOSUMDB=off go test -json -vet=off -count=1 -timeout 25m ./...",
    "source_commits": [],
    "add_only": True,
  },
